@@ -132,7 +132,11 @@ def gen_simple(rng, kind=None, scale=None, center_scale=None, include=None):
             v = [[c[0] + float(Fraction(rng.randint(-16, 16), 4)) * scale, c[1] + float(Fraction(rng.randint(-16, 16), 4)) * scale]
                  for _ in range(n)]
         d.update(v=v)
-        if rng.random() < 0.3:
+        if rng.random() < 0.25:
+            # vertices given as fixed-width numpy integer arrays (whole numbers that fit every carrier type)
+            d['v'] = [[float(rng.randint(0, 120)), float(rng.randint(0, 120))] for _ in range(n)]
+            d['v_np'] = rng.choice(['uint8', 'uint8', 'int8', 'uint16', 'int16', 'int32', 'uint64'])
+        elif rng.random() < 0.3:
             # built with the `origin=` keyword: the constructor receives vertices relative to it
             d['origin'] = [float(rng.randint(-8, 8)) / 2, float(rng.randint(-8, 8)) / 2]
     elif kind == 'regular_polygon':
@@ -151,6 +155,22 @@ def gen_simple(rng, kind=None, scale=None, center_scale=None, include=None):
         d.update(a=c, b=[c[0] + rfloat(rng, scale), c[1] + rfloat(rng, scale)])
     else:
         raise ValueError(kind)
+    if rng.random() < 0.15:
+        d['meta_extra'] = {kk: rng.choice([0, 1]) for kk in rng.sample(['rotate', 'fixed', 'edit', 'move', 'select', 'highlite', 'delete', 'source'], rng.randint(1, 4))}
+        if rng.random() < 0.5:
+            d['meta_extra']['text'] = 'a label'
+    # sizes given as fixed-width numpy scalars (unsigned ones wrap around under negation / subtraction): only when
+    # every size of the shape is a small whole number, so that the value is the same in every carrier type
+    keys = [k for k in ('r', 'w', 'h', 'r1', 'r2', 'w1', 'h1', 'w2', 'h2') if k in d]
+    if keys and scale in (1.0, 3.0, 10.0) and rng.random() < 0.15:
+        for k in keys:
+            d[k] = float(max(1, min(200, round(d[k] * 4))))
+        if 'r2' in d and d['r2'] <= d['r1']:
+            d['r2'] = d['r1'] + 3.0
+        for a_, b_ in (('w1', 'w2'), ('h1', 'h2')):
+            if b_ in d and d[b_] <= d[a_]:
+                d[b_] = d[a_] + 5.0
+        d['size_np'] = rng.choice(['uint8', 'uint8', 'uint16', 'uint32', 'uint64', 'int16', 'int64', 'float32'])
     return d
 
 
@@ -173,6 +193,10 @@ def _meta(d):
     m = RegionMeta()
     if d.get('include', 'absent') != 'absent':
         m['include'] = INCLUDE_VALUE[d['include']]
+    # the other DS9 interaction flags / annotations (as a region parsed from a DS9 line carries them): data only,
+    # no geometric operation may depend on them
+    for kk, vv in (d.get('meta_extra') or {}).items():
+        m[kk] = vv
     return m
 
 
@@ -200,6 +224,12 @@ def build(d):
     else:
         P = lambda p: PixCoord(p[0], p[1])
     A = lambda a: a[0] * u.Unit(a[1])
+    if d.get('size_np'):
+        _T = getattr(np, d['size_np'])
+        _keys = [kk for kk in ('r', 'w', 'h', 'r1', 'r2', 'w1', 'h1', 'w2', 'h2') if kk in d]
+        # only while every size still is a small whole number (a generator may have re-scaled the shape since)
+        if all(float(d[kk]).is_integer() and 1 <= d[kk] <= 250 for kk in _keys):
+            d = dict(d, **{kk: _T(d[kk]) for kk in _keys})
     m = _meta(d)
     if k != 'compound' and d.get('include', 'absent') == 'absent' and not d.get('_sibling') and _omit_meta(d):
         # no meta argument at all (the constructor's default), AFTER a sibling of the same class - built without meta
@@ -224,6 +254,9 @@ def build(d):
             o = d['origin']
             return PolygonPixelRegion(PixCoord([p[0] - o[0] for p in d['v']], [p[1] - o[1] for p in d['v']]),
                                       origin=P(o), **mk)
+        if d.get('v_np') and all(float(c_).is_integer() and 0 <= c_ <= 120 for p_ in d['v'] for c_ in p_):
+            _V = getattr(np, d['v_np'])
+            return PolygonPixelRegion(PixCoord(np.array([p[0] for p in d['v']], dtype=_V), np.array([p[1] for p in d['v']], dtype=_V)), **mk)
         return PolygonPixelRegion(PixCoord([p[0] for p in d['v']], [p[1] for p in d['v']]), **mk)
     if k == 'regular_polygon':
         return RegularPolygonPixelRegion(P(d['c']), d['n'], d['r'], angle=A(d['angle']), **mk)
@@ -526,6 +559,13 @@ def build_case(case):
     built and USED with those parameters and then re-assigned (history)."""
     d = case['region']
     prev = case.get('prev')
+    if d['kind'] == 'compound' and case.get('op_prev') is not None:
+        # a compound that has been USED (box, mask, membership) before one of its operands is changed in place
+        which, pd = case['op_prev']
+        comp = build(dict(d, **{which: pd}))
+        warm(comp)
+        reassign(comp.region1 if which == 'a' else comp.region2, d[which], pd)
+        return comp
     if prev is None or d['kind'] not in HISTORY_KINDS or 'origin' in d:
         return build(d)
     reg = build(prev)
@@ -536,6 +576,14 @@ def build_case(case):
 def add_history(rng, case, prob=0.2):
     """with some probability give the case a previous parametrisation of the same kind."""
     d = case['region']
+    if d['kind'] == 'compound' and rng.random() < prob:
+        which = rng.choice(['a', 'b'])
+        od = d[which]
+        if od['kind'] in HISTORY_KINDS and od['kind'] not in ('polygon',) and 'origin' not in od and not od.get('size_np'):
+            sub = add_history(rng, {'region': od}, prob=1.0)
+            if sub.get('prev') is not None and sub['prev'] != od and sub['prev'].get('include') == od.get('include'):
+                case['op_prev'] = [which, sub['prev']]
+        return case
     if d['kind'] in HISTORY_KINDS and 'origin' not in d and rng.random() < prob:
         m_ = rng.random()
         if m_ < 0.3:
@@ -562,6 +610,8 @@ def add_history(rng, case, prob=0.2):
         else:
             p = gen_simple(rng, kind=d['kind'], scale=1.0, center_scale=3)
         p.pop('origin', None)
+        if p != d:
+            p.pop('size_np', None)      # the previous sizes need not be whole numbers
         case['prev'] = p
         # assign only what differs (70 %) or every parameter, unchanged ones included
         case['only_changed'] = rng.random() < 0.7
